@@ -62,25 +62,42 @@ Theorem maps_xml_string_error (xs : list str) e rest :
   maps_xml_string (map Ok xs ++ Err e :: rest) = (concat xs, Some e).
 Proof. unfold maps_xml_string. rewrite maps_concat_nosep_err. reflexivity. Qed.
 
-(* JsonString(false) - and JsonString() - is the concatenation of the per-Map Json() encodings *)
-Theorem maps_json_string_partial (bs : list str) :
-  maps_json_string false (map Ok bs) = (concat (map (json_post false) bs), None).
-Proof. unfold maps_json_string. rewrite map_map. cbn [map_json]. rewrite <- (map_map (json_post false) Ok). apply maps_concat_nosep_ok. Qed.
+(* JsonString(safe) is the concatenation of the per-Map Json(safe) encodings *)
+Theorem maps_json_string_concat safe (bs : list str) :
+  maps_json_string safe (map Ok bs) = (concat (map (json_post safe) bs), None).
+Proof.
+  unfold maps_json_string. rewrite map_map. cbn [map_json].
+  rewrite <- (map_map (json_post safe) Ok). apply maps_concat_nosep_ok.
+Qed.
 
 Definition lt_doc : str := s "{""a"":""" ++ bs ++ s "u003c""}".    (* what json.Marshal returns for {"a":"<"} *)
 
-(* JsonString(true) is NOT the concatenation of the Json(true) encodings: the argument is ignored *)
-Theorem maps_json_string_refuted :
-  exists bs, maps_json_string true (map Ok bs) <> (concat (map (json_post true) bs), None).
-Proof. exists [lt_doc]. vm_compute. discriminate. Qed.
+(* JsonStringIndent(p, i, safe) is the per-Map JsonIndent(p, i, safe) encodings JOINED by a newline *)
+Lemma join_go sep (xs : list str) :
+  (fix go (first : bool) (xs : list str) : str :=
+     match xs with [] => [] | x :: t => (if first then [] else sep) ++ x ++ go false t end) true xs = join sep xs.
+Proof.
+  destruct xs as [|x t]; [reflexivity|]. cbn [app].
+  revert x. induction t as [|y t IH]; intro x.
+  - cbn [join]. apply app_nil_r.
+  - change (join sep (x :: y :: t)) with (x ++ sep ++ join sep (y :: t)).
+    rewrite <- (IH y). reflexivity.
+Qed.
 
-(* JsonStringIndent is not a concatenation either: a newline separates the documents (and the argument is ignored) *)
+Theorem maps_json_string_indent_join safe (bs : list str) :
+  maps_json_string_indent safe (map Ok bs) = (join [ascii_of_nat 10] (map (json_post safe) bs), None).
+Proof.
+  unfold maps_json_string_indent. rewrite map_map. cbn [map_json].
+  rewrite <- (map_map (json_post safe) Ok). rewrite maps_concat_ok. cbn [app]. rewrite join_go. reflexivity.
+Qed.
+
+(* ... hence NOT their concatenation as soon as there are two documents *)
 Theorem maps_json_string_indent_refuted :
   exists bs, maps_json_string_indent false (map Ok bs) <> (concat (map (json_post false) bs), None).
 Proof. exists [s "{}"; s "{}"]. vm_compute. discriminate. Qed.
 
 Theorem maps_json_string_indent_single safe (b : str) :
-  maps_json_string_indent safe [Ok b] = (json_post false b, None).
+  maps_json_string_indent safe [Ok b] = (json_post safe b, None).
 Proof. unfold maps_json_string_indent. cbn. reflexivity. Qed.
 
 Lemma maps_file_ok x : maps_file (x, None) = (Some x, None).
